@@ -78,7 +78,7 @@ CtorHeaps ==
 ValHeaps ==
   {H1(F23lead0, "dense", "F23lead0"), H1(F23num, "dense", "F23num"), H1(F23tax, "csr_unsorted", "F23tax"), H1(T23, "csr_zeros", "T23z"),
    H1(T33, "csc", "T33"), H1(F33dense, "dense", "F33dense"), H1(F13, "dense", "F13"), H1(F24frac, "coo", "F24frac")}
-Len4Heaps == {H2(SQ33, SQ33p, "dense", "SQ33+p"), H2(SQ33, SQ33p, "csr_unsorted", "SQ33u+p"), H1(T44, "csr_unsorted", "T44u"), H1(T44, "csc", "T44c"), H2(T44, T44p, "dense", "T44+p")}
+Len4Heaps == {H2(SQ33, SQ33q, "dense", "SQ33+q"), H2(SQ33, SQ33p, "dense", "SQ33+p"), H2(SQ33, SQ33p, "csr_unsorted", "SQ33u+p"), H1(T44, "csr_unsorted", "T44u"), H1(T44, "csc", "T44c"), H2(T44, T44p, "dense", "T44+p")}
 HeapSets == [len4 |-> Len4Heaps, wide |-> WideHeaps, one |-> {H1(T22, "dense", "T22")}, pairs |-> MergeHeaps \cup ConcatHeaps \cup CountHeaps, val |-> ValHeaps, sum |-> SumHeaps, ctor |-> CtorHeaps, files |-> FileHeaps, json |-> JsonHeaps,std |-> MCInitHeaps, eq |-> EqHeaps, eq3 |-> Eq3Heaps, all |-> MCInitHeaps \cup EqHeaps, mrg |-> MergeHeaps,
              cat |-> ConcatHeaps, cnt |-> CountHeaps, stdcnt |-> MCInitHeaps \cup CountHeaps \cup {H1(F23cancel, "csr", "F23cancel")}]
 \* C08's own scope: EVERY matrix of a given shape over a small value alphabet (GEN_UNIV = JSON file
